@@ -14,6 +14,7 @@ restates the property on the trace with its own small reference computation.
 from __future__ import annotations
 
 import asyncio
+import logging
 import random as _random
 
 from harness import vloop
@@ -24,6 +25,8 @@ from xknx.knxip import KNXIPFrame, RoutingBusy, RoutingIndication
 from xknx.telegram import GroupAddress, IndividualAddress, Telegram
 from xknx.telegram.apci import GroupValueWrite
 from xknx.dpt import DPTBinary
+
+logging.getLogger("xknx").setLevel(logging.CRITICAL + 1)
 
 PROPERTY = "C27"
 EXHAUSTIVE = False
